@@ -513,9 +513,9 @@ func c19Gen(r *Run) {
 			s.eng.Destroy()
 		}
 	}()
-	ngraphs, per := 90, 6
+	ngraphs, per := 75, 6
 	if r.Tier == "thorough" {
-		ngraphs, per = 450, 10
+		ngraphs, per = 350, 10
 	}
 	allNames := []string{"a", "b", "c", "d", "e", "f"}
 	for gi := 0; gi < ngraphs; gi++ {
